@@ -59,6 +59,10 @@ def directed_plans(tier):
         out.append({**base, 'design': d, 'labels': [3, 11, 12, 30]})
     out.append({**base, 'use_same_signal': False, 'noise': 1, 'noise_cov': True})
     out.append({**base, 'kind': 'weighted', 'theta': [2.0, 0.5]})
+    # the design vectors over a grid of sizes (many partitions: a long session, many runs): no randomness involved
+    for lo in range(1, 97 if tier == 'quick' else 257, 16):
+        out.append({'mode': 'design_grid', 'n_part_lo': lo, 'n_part_hi': lo + 16, 'n_cond_hi': 13 if tier == 'quick' else 25,
+                    'faults': {'rate': 0, 'kinds': []}})
     # two histories (thorough tier VERIF_SEED=0; quick tier VERIF_SEED=6) on which the exact-signal construction breaks down
     # macroscopically: model RDMs with two identical conditions whose second-moment matrix makes scipy's LDL use a 2x2
     # pivot. Kept as directed scenarios so that the known finding is re-observed on every run.
@@ -78,6 +82,14 @@ def summarize(plan):
 
 
 def shrink_candidates(plan):
+    if plan.get('mode') == 'design_grid':
+        if plan['n_part_hi'] - plan['n_part_lo'] > 1:
+            mid = (plan['n_part_lo'] + plan['n_part_hi']) // 2
+            yield {**plan, 'n_part_hi': mid}
+            yield {**plan, 'n_part_lo': mid}
+        if plan['n_cond_hi'] > 2:
+            yield {**plan, 'n_cond_hi': plan['n_cond_hi'] - 1}
+        return
     if plan['n_sim'] > 1:
         yield {**plan, 'n_sim': plan['n_sim'] - 1}
     if plan['n_part'] > 1:
@@ -244,9 +256,42 @@ def _rdm_from_data(meas, cidx, nc, Z=None):
     return _sqdist(means) / meas.shape[1]
 
 
+def _design_grid(plan, ctx):
+    """make_design over a grid of (n_cond, n_part): every partition lists every condition exactly once"""
+    from rsatoolbox.simulation import make_design
+    ctx.components.update(['real:rsatoolbox.simulation.sim'])
+    ctx.tick('op', op='design_grid', lo=plan['n_part_lo'], hi=plan['n_part_hi'])
+    for n_part in range(plan['n_part_lo'], plan['n_part_hi']):
+        for nc in range(1, plan['n_cond_hi']):
+            try:
+                cvec, pvec = make_design(nc, n_part)
+            except Exception as e:
+                ctx.violation('sim_ref.raises', f'make_design:raises:{type(e).__name__}', f'make_design({nc},{n_part}) raised {type(e).__name__}: {e}')
+                return
+            cvec, pvec = np.asarray(cvec), np.asarray(pvec)
+            if cvec.shape != (nc * n_part,) or pvec.shape != (nc * n_part,):
+                ctx.violation('sim_ref.clause2', 'make_design:shape', f'make_design({nc},{n_part}) returned {cvec.shape} / {pvec.shape} observations')
+                return
+            parts = sorted(set(pvec.tolist()))
+            for part in parts:
+                conds = sorted(cvec[pvec == part].tolist())
+                if conds != sorted(set(cvec.tolist())) or len(conds) != nc:
+                    ctx.violation('sim_ref.clause2', 'make_design:conditions',
+                                  f'make_design({nc},{n_part}): partition {part} lists conditions {conds}')
+                    return
+            if len(parts) != n_part:
+                ctx.violation('sim_ref.clause2', 'make_design:conditions', f'make_design({nc},{n_part}) has {len(parts)} partitions')
+                return
+            ctx.probe('design_grid_cells')
+    ctx.nontrivial = True
+    ctx.behaviour('design_grid', plan['n_part_lo'])
+
+
 def execute(plan, ctx):
     import rsatoolbox  # noqa
     from scipy.special import ndtri
+    if plan.get('mode') == 'design_grid':
+        return _design_grid(plan, ctx)
     ctx.components.update(['real:rsatoolbox.simulation.sim', 'real:rsatoolbox.rdm.calc_rdm', 'real:rsatoolbox.model',
                            'real:scipy.linalg.ldl', 'stub:numpy.random.uniform (values served by the simulator)'])
     nc, n_ch, n_sim = plan['n_cond'], plan['n_channel'], plan['n_sim']
